@@ -144,7 +144,7 @@ func runC05(r *Run) {
 		script = &scriptLimit{cur: initial}
 		n := 2 + t.Intn(12, "traj-len")
 		for i := 0; i < n; i++ {
-			script.vals = append(script.vals, []int{1, 2, 7, 0, -5, 33, 64, initial, 3, 100}[t.Intn(10, "traj")])
+			script.vals = append(script.vals, []int{1, 2, 7, 0, -5, 33, 64, initial, 3, 100, 65536, 70000, 1 << 20}[t.Intn(13, "traj")])
 		}
 		lim = script
 	case 1:
@@ -215,6 +215,21 @@ func runC05(r *Run) {
 		if got != want {
 			s.Fail("enforced-limit-stale", kind, "%s: the strategy enforces limit %d but the algorithm's estimate is %d (floored: %d)", where, got, est, want)
 			return false
+		}
+		// the partition gauges first: a getter that re-derives a share on demand must not repair what a poller sees
+		for i, n := range names {
+			if removedB && n == "b" {
+				continue
+			}
+			if g := reg.Gauge(core.MetricPartitionLimit, "partition:"+n); g != nil {
+				var v float64
+				var ok2 bool
+				w, w2 := ks[i].shares(want)
+				if RootCall(func() { v, ok2 = g.Value() }) && ok2 && int(v) != w && int(v) != w2 {
+					s.Fail("limit-gauge-wrong", kind+"/partition", "%s: the partition gauge of %s reports %v, share is %d", where, n, v, w)
+					return false
+				}
+			}
 		}
 		chk, chkK := names, ks
 		if removedB {
